@@ -26,7 +26,7 @@ if [ -f inproc/targets.cpp ]; then
   if newer $T/targets_rc.o; then
     (clang++ $CXXF $SAN -c inproc/targets.cpp -o $T/targets_rc.o.tmp && mv $T/targets_rc.o.tmp $T/targets_rc.o) & pids="$pids $!"
   fi
-  for p in decode_raw decode_defect decode_valid roundtrip collect; do
+  for p in decode_raw decode_defect decode_valid decode_sym roundtrip collect; do
     if newer $T/targets_fz_$p.o; then
       (clang++ $CXXF $SAN -fsanitize=fuzzer-no-link -DVT_LIBFUZZER=$p -c inproc/targets.cpp -o $T/targets_fz_$p.o.tmp && mv $T/targets_fz_$p.o.tmp $T/targets_fz_$p.o) & pids="$pids $!"
     fi
